@@ -23,13 +23,13 @@ static NEXT_ID: AtomicU64 = AtomicU64::new(0);
 /// a call with input `inp` whose response will arrive through `rx`
 pub fn prepare(inp: i64, rx: oneshot::Receiver<i64>) -> Call {
     let id = NEXT_ID.fetch_add(1, std::sync::atomic::Ordering::SeqCst);
-    WIRE.lock().unwrap().get_or_insert_with(HashMap::new).insert(id, rx);
+    WIRE.lock().unwrap_or_else(|e| e.into_inner()).get_or_insert_with(HashMap::new).insert(id, rx);
     Call(inp, id)
 }
 
 /// forget the calls that were never sent (between cases)
 pub fn reset() {
-    *WIRE.lock().unwrap() = None;
+    *WIRE.lock().unwrap_or_else(|e| e.into_inner()) = None;
 }
 
 pub fn to_res(r: i64) -> Res {
